@@ -1254,4 +1254,21 @@ pub(crate) const MAX_PUBKEY_SIZE: usize = 97;""")]),
     dict(name='c03-concat-fn-skips-last-piece', expect=[('C03', 'R03.2')], patch=BP + 'B23-2.diff',
          note='const-generic concat function whose loop leaves out the last piece (pkS / the identity DH)',
          edits=[(UTIL, "    for slice in slices {", "    for slice in &slices[..slices.len() - 1] {")]),
+    # ------------------------------------------------------------------ forms accepted since benign round 6, each with one fault
+    dict(name='c09-or-wrong-error', expect=[('C09', 'R09.2')], patch=BP + 'B33-4.diff',
+         note='`.map(PrivateKey).or(Err(..))` spelling of the NIST private-key parser that reports DecapError for an out-of-range scalar',
+         edits=[(NIST, ".or(Err(HpkeError::ValidationError))", ".or(Err(HpkeError::DecapError))")]),
+    dict(name='c04-double-slice-shifted', expect=[('C04', 'R04.1')], patch=BP + 'B34-2.diff',
+         note='buf[off..][..8] spelling of the counter position with off one byte too small',
+         edits=[(AEAD, "let seq_offset = nonce_size - SEQ_SIZE;", "let seq_offset = nonce_size - SEQ_SIZE - 1;")]),
+    dict(name='c14-explicit-split-rejects-empty', expect=[('C14', 'R14.2'), ('C01', 'R14.2')], patch=BP + 'B34-3.diff',
+         note='explicit-comparison spelling of the length check with > for >=: a sealed empty message is refused by open() only',
+         edits=[(AEAD, "if !(total_len >= tag_len) {", "if !(total_len > tag_len) {")]),
+    dict(name='c02-explicit-context-hashes-swapped', expect=[('C02', 'R02.5')], patch=BP + 'B34-5.diff',
+         note='hand-laid-out key_schedule_context with info_hash before psk_id_hash',
+         edits=[('src/setup.rs', "        buf[1..=hash_len].copy_from_slice(&psk_id_hash);\n        buf[info_hash_start..total_len].copy_from_slice(&info_hash);",
+                 "        buf[1..=hash_len].copy_from_slice(&info_hash);\n        buf[info_hash_start..total_len].copy_from_slice(&psk_id_hash);")]),
+    dict(name='c13-dh-or-helper-unwraps', expect=[('C10', 'R10.2')], patch=BP + 'B33-3.diff',
+         note='the shared dh_or helper ignores its failure argument and reports EncapError on the receiver side too',
+         edits=[('src/kem/dhkem.rs', "                    Err(_) => Err(failure),", "                    Err(_) => { let _ = failure; Err(HpkeError::EncapError) }")]),
 ]
